@@ -351,6 +351,27 @@ let monitor_obs (m : mon) (o : obs) =
         if not (prefix have ops) then
           violate m "C10" (Printf.sprintf "state machine of node %s holds [%s], not a prefix of the committed operations [%s]" id fsm (String.concat "," ops))
       end) up;
+  (* C10: a snapshot labelled i carries the configuration committed at i: its configuration entry has an index <= i
+     and, if that index is known committed, is that committed entry *)
+  List.iter (fun (id, s) ->
+      match String.split_on_char ':' (field s "snap") with
+      | i :: _ :: rest when rest <> [] ->
+          let i = int_of_string i in
+          let rest = String.concat ":" rest in
+          (match String.rindex_opt rest ':' with
+           | Some k ->
+               let conf = String.sub rest 0 k in
+               let ci = try int_of_string (String.sub conf 0 (String.index conf '{')) with _ -> 0 in
+               if ci > i then
+                 violate m "C10" (Printf.sprintf "node %s holds a snapshot labelled %d with configuration %s (a configuration entry beyond the label)" id i conf)
+               else (match Hashtbl.find_opt m.committed ci with
+                   | Some e when (match String.index_opt e ':' with
+                                  | Some j -> String.length e > j + 1 && e.[j + 1] = 'c' && String.sub e (j + 1) (String.length e - j - 1) <> "c" ^ conf
+                                  | None -> false) ->
+                       violate m "C10" (Printf.sprintf "node %s holds a snapshot labelled %d with configuration %s but index %d is committed as %s" id i conf ci e)
+                   | _ -> ())
+           | None -> ())
+      | _ -> ()) up;
   (* C11: applied and commit never exceed what the log/snapshot boundary covers; lii <= applied *)
   List.iter (fun (id, s) ->
       if int_field s "applied" > int_field s "commit" then
